@@ -919,104 +919,112 @@ func (y *IfFeature) Expression() string {
 	return y.expr
 }
 
+// Evaluate the expression according to RFC7950 Sec 7.20.2
+//
+//	if-feature-expr   = if-feature-term [sep "or" sep if-feature-expr]
+//	if-feature-term   = if-feature-factor [sep "and" sep if-feature-term]
+//	if-feature-factor = "not" sep if-feature-factor /
+//	                    "(" optsep if-feature-expr optsep ")" /
+//	                    identifier-ref-arg-str
 func (y *IfFeature) Evaluate(enabled map[string]*Feature) (bool, error) {
 	e := &ifFeatureEval{
 		features: enabled,
-		expr:     y.expr,
+		toks:     ifFeatureTokens(y.expr),
 	}
-	e.eval(false)
-	b := e.pop()
-	err := e.lastErr
-	if err == nil && len(e.stack) != 0 {
+	b, ok := e.expr()
+	if !ok || e.pos != len(e.toks) {
 		return false, errors.New("syntax err in feature expression:" + y.expr)
 	}
-	return b, err
+	return b, nil
 }
 
 type ifFeatureEval struct {
 	features map[string]*Feature
-	expr     string
-	stack    []bool
+	toks     []string
 	pos      int
-	lastErr  error
 }
 
-func (y *ifFeatureEval) eval(greedy bool) {
-	for !y.end() {
-		tok := y.next()
-		switch tok {
-		case "(":
-			y.eval(false)
-		case ")":
-			return
-		case "and":
-			y.eval(true)
-			a, b := y.pop(), y.pop()
-			y.push(a && b)
-		case "not":
-			y.eval(true)
-			y.push(!y.pop())
-		case "or":
-			y.eval(false)
-			a, b := y.pop(), y.pop()
-			y.push(a || b)
-		default:
-			_, found := y.features[tok]
-			y.push(found)
-		}
-		if greedy {
-			return
+// ifFeatureTokens splits on white space, parenthesis are tokens on their own
+func ifFeatureTokens(expr string) []string {
+	var toks []string
+	start := -1
+	flush := func(end int) {
+		if start >= 0 {
+			toks = append(toks, expr[start:end])
+			start = -1
 		}
 	}
-	return
-}
-
-func (y *ifFeatureEval) end() bool {
-	return y.pos >= len(y.expr)
-}
-
-func (y *ifFeatureEval) eatws() {
-	for !y.end() {
-		if y.expr[y.pos] != ' ' {
-			break
-		}
-		y.pos++
-	}
-}
-
-func (y *ifFeatureEval) next() string {
-	y.eatws()
-	start := y.pos
-	for !y.end() {
-		switch y.expr[y.pos] {
-		case ' ':
-			goto brk
+	for i, c := range expr {
+		switch c {
+		case ' ', '\t', '\n', '\r':
+			flush(i)
 		case '(', ')':
-			if y.pos == start {
-				y.pos++
+			flush(i)
+			toks = append(toks, string(c))
+		default:
+			if start < 0 {
+				start = i
 			}
-			goto brk
+		}
+	}
+	flush(len(expr))
+	return toks
+}
+
+func (y *ifFeatureEval) peek() string {
+	if y.pos < len(y.toks) {
+		return y.toks[y.pos]
+	}
+	return ""
+}
+
+func (y *ifFeatureEval) expr() (bool, bool) {
+	a, ok := y.term()
+	if !ok {
+		return false, false
+	}
+	if y.peek() == "or" {
+		y.pos++
+		b, ok := y.expr()
+		return a || b, ok
+	}
+	return a, true
+}
+
+func (y *ifFeatureEval) term() (bool, bool) {
+	a, ok := y.factor()
+	if !ok {
+		return false, false
+	}
+	if y.peek() == "and" {
+		y.pos++
+		b, ok := y.term()
+		return a && b, ok
+	}
+	return a, true
+}
+
+func (y *ifFeatureEval) factor() (bool, bool) {
+	switch tok := y.peek(); tok {
+	case "", ")", "and", "or":
+		return false, false
+	case "not":
+		y.pos++
+		a, ok := y.factor()
+		return !a, ok
+	case "(":
+		y.pos++
+		a, ok := y.expr()
+		if !ok || y.peek() != ")" {
+			return false, false
 		}
 		y.pos++
+		return a, true
+	default:
+		y.pos++
+		_, found := y.features[tok]
+		return found, true
 	}
-brk:
-	tok := y.expr[start:y.pos]
-	return tok
-}
-
-func (y *ifFeatureEval) pop() bool {
-	if len(y.stack) == 0 {
-		y.lastErr = errors.New("syntax err in feature expression:" + y.expr)
-		return false
-	}
-	last := len(y.stack) - 1
-	b := y.stack[last]
-	y.stack = y.stack[0:last]
-	return b
-}
-
-func (y *ifFeatureEval) push(b bool) {
-	y.stack = append(y.stack, b)
 }
 
 type When struct {
@@ -1045,7 +1053,6 @@ func (y *When) inherited() *When {
 	copy.onParent = true
 	return &copy
 }
-
 
 type Must struct {
 	parent       Meta
